@@ -287,6 +287,7 @@ RULE = (
     "(I, W/m^2/nm, mW/m^2/nm; E, mol.., mmol..; wavelengths in nm or um), return_units None/True/False, both directions; oracle = "
     "I*lambda*1e-9/(h c N_A)/prefix with exact SI constants typed into the harness, rel. tol 1e-12. Non-trivial = N-D input with "
     "the wavelength not on the last axis, or quantity input, or a non-empty prefix."
+    " The unit in which plain numbers are stated (irr_units / flux_units) is drawn from {default, none, milli, micro, nano}; spectra also as float32 (rel. tol 1e-6 when a unit conversion happens in float32) and int64 arrays."
 )
 
 PROP = Prop(
